@@ -46,11 +46,18 @@ def plan_dp(tier, seed, props):
         items += [dict(family=L.ensure_edits(seed, n, depth), opts=NONE, frac=1.0, void=False, nf=False, mode="paired")]
     # every kind of value; sibling containers with same-named array children
     items += [item("kinds", NONE, 0.06 if q else 0.5), item("siblings", NONE, 0.3 if q else 1.0)]
+    # sizes beyond any small threshold: 17- and 33-element arrays, 20-member objects
+    items += [item("long_root", NONE, 0.2 if q else 1.0, False), item("long_key", NONE, 0.2 if q else 1.0, False),
+              item("long_elem", NONE, 0.2 if q else 1.0, False), item("wide", NONE, 1.0, False)]
+    # the second document spells its zeros -0 (the same number: nothing changes for the specification)
+    items += [item("kinds", NONE, 0.03 if q else 0.3, mode="negzero")]
     if listonly:
         return items
+    items += [item("kinds", o, 0.015 if q else 0.15, mode="negzero") for o in (SET, MSET, MERGE)]
     others = [SET, MSET, MERGE, SETMERGE, MSETMERGE]
     for o in others:
-        items += [item("kinds", o, 0.015 if q else 0.15), item("siblings", o, 0.05 if q else 0.5)]
+        items += [item("kinds", o, 0.015 if q else 0.15), item("siblings", o, 0.05 if q else 0.5),
+                  item("long_key", o, 0.04 if q else 0.4, False), item("wide", o, 0.3 if q else 1.0, False)]
     for o in others:
         f = 0.04 if q else 0.25
         items += [item("scalarr_4_3", o, f), item("nestarr_2", o, f), item("obj_2", o, f * 1.5),
@@ -82,7 +89,9 @@ def plan_pt(tier, seed, props):
                   item("nestarr_2", NONE, 0.08 if q else 0.6, False, max=8 if q else 14),
                   item("deep", NONE, 0.06 if q else 0.6, False, max=8 if q else 14),
                   item("obj_2", NONE, 0.1 if q else 0.6, False, max=6 if q else 10),
-                  item("kinds", NONE, 0.02 if q else 0.2, False, max=6 if q else 10), item("siblings", NONE, 0.1 if q else 0.6, False, max=8)]
+                  item("kinds", NONE, 0.02 if q else 0.2, False, max=6 if q else 10), item("siblings", NONE, 0.1 if q else 0.6, False, max=8),
+                  item("long_key", NONE, 0.04 if q else 0.4, False, max=6), item("long_root", NONE, 0.04 if q else 0.4, False, max=6),
+                  item("wide", NONE, 0.3 if q else 1.0, False, max=6)]
         if not q:
             items += [item("scalarr_5_3", NONE, 0.05, False, max=10), item("keyed_2", NONE, 0.5, False, max=10)]
     if "C08" in props:
@@ -91,7 +100,8 @@ def plan_pt(tier, seed, props):
                       item("nestarr_2", o, 0.05 if q else 0.4, False, max=10, mode="whole"),
                       item("keyed_2", o, 0.4 if q else 1.0, False, max=10, mode="whole"),
                       item("deep", o, 0.03 if q else 0.3, False, max=10, mode="whole"),
-                      item("kinds", o, 0.02 if q else 0.2, False, max=10, mode="whole")]
+                      item("kinds", o, 0.02 if q else 0.2, False, max=10, mode="whole"),
+                      item("long_key", o, 0.03 if q else 0.3, False, max=8, mode="whole")]
         items += [item("keyednull", KEYS, 1.0, False, max=14, mode="whole"),
                   item("keyed_2", KEYS, 1.0, False, max=12, mode="whole"),
                   item("keyeddeep", KEYS, 1.0, False, max=12, mode="whole"),
@@ -111,7 +121,9 @@ def plan_eq(tier, seed, props):
                   item("nestarr_2", o, 0.15 if q else 1.0, False),
                   item("obj_2", o, 0.3 if q else 1.0, False),
                   item("keyed_2", o, 0.5 if q else 1.0, False),
-                  item("deep", o, 0.05 if q else 0.5, False), item("kinds", o, 0.1 if q else 1.0, True)]
+                  item("deep", o, 0.05 if q else 0.5, False), item("kinds", o, 0.1 if q else 1.0, True),
+                  item("long_root", o, 0.2 if q else 1.0, False), item("long_elem", o, 0.1 if q else 1.0, False), item("wide", o, 1.0, False)]
+        items += [item("kinds", o, 0.05 if q else 0.5, True, mode="negzero"), item("confusable", o, 1.0, True, mode="negzero")]
         if not q:
             items += [item("scalarr_5_3", o, 0.3, False), item("keyed_3", o, 0.5, False), item("obj_3", o, 0.2, False),
                       item("nestarr_3", o, 0.03, False)]
@@ -127,7 +139,8 @@ def plan_tx(tier, seed, props):
     for o in (KEYS, O(keys=["id"], merge=True)):
         items += [item("keyed_2", o, 0.5 if q else 1.0), item("keyeddeep", o, 1.0)]
     items += [item("strdocs", NONE, 0.5 if q else 1.0), item("kinds", NONE, 0.04 if q else 0.4), item("siblings", NONE, 0.15 if q else 1.0),
-              item("kinds", MERGE, 0.02 if q else 0.2), item("kinds", SET, 0.02 if q else 0.2)]
+              item("kinds", MERGE, 0.02 if q else 0.2), item("kinds", SET, 0.02 if q else 0.2),
+              item("long_key", NONE, 0.1 if q else 1.0, False), item("wide", NONE, 0.5 if q else 1.0, False), item("wide", MERGE, 0.3 if q else 1.0, False)]
     items += [dict(family="hunks_wf", opts=NONE, frac=1.0, void=False, mode="built", max=4000 if q else 30000, nf=False)]
     return items
 
@@ -155,6 +168,8 @@ def plan_jp(tier, seed, props):
              item("keyed_2", NONE, 0.3 if q else 1.0, False, max=3),
              item("siblings", NONE, 0.4 if q else 1.0, False, max=3), item("kinds", NONE, 0.05 if q else 0.5, False, max=3),
              item("intkeys", NONE, 0.5 if q else 1.0, False, max=3),
+             item("long_key", NONE, 0.08 if q else 0.8, False, max=2), item("long_root", NONE, 0.08 if q else 0.8, False, max=2),
+             item("wide", NONE, 0.5 if q else 1.0, False, max=2),
              # set-mode diffs: paths that must be refused
              item("scalarr_4_3", SET, 0.01 if q else 0.05, False, max=1), item("keyed_2", KEYS, 0.1 if q else 0.5, False, max=1),
              item("nestarr_2", MSET, 0.01 if q else 0.05, False, max=1)]
@@ -169,7 +184,8 @@ def plan_mg(tier, seed, props):
         items += [item("obj_2", o, (0.4 if q else 1.0) * f, False), item("deep", o, (0.15 if q else 1.0) * f, False),
                   item("nestarr_2", o, (0.1 if q else 0.6) * f, False), item("keyed_2", o, (0.4 if q else 1.0) * f, False),
                   item("deepobj", o, (0.3 if q else 1.0) * f, False), item("scalarr_4_3", o, (0.05 if q else 0.3) * f, False),
-                  item("kinds", o, (0.1 if q else 1.0) * f, False), item("siblings", o, (0.2 if q else 1.0) * f, False)]
+                  item("kinds", o, (0.1 if q else 1.0) * f, False), item("siblings", o, (0.2 if q else 1.0) * f, False),
+                  item("long_key", o, (0.1 if q else 1.0) * f, False), item("wide", o, (0.5 if q else 1.0) * f, False)]
         if not q:
             items += [item("obj_3", o, 0.2 * f, False)]
     return items
@@ -193,7 +209,8 @@ def plan_api(tier, seed, props):
             dict(family="mergedocs", opts=MERGE, frac=1.0, void=False, nf=False, max=n * 3), dict(family="obj_2", opts=MERGE, frac=1.0, void=False, nf=False, max=n),
             item("obj_2", NONE, max=n), item("scalarr_4_3", SET, max=n), item("nestarr_2", MSET, max=n), item("keyed_2", KEYS, max=n),
             item("obj_2", SETMERGE, max=n), item("deep", NONE, max=n), item("mergedeep", MERGE, max=n),
-            item("kinds", NONE, max=n * 2), item("siblings", NONE, max=n)]
+            item("kinds", NONE, max=n * 2), item("siblings", NONE, max=n), item("wide", NONE, max=n * 2), item("wide", MERGE, max=n),
+            item("long_elem", NONE, max=n), item("long_root", SET, max=n)]
 
 
 def plan_api_ptr(tier, seed, props):
@@ -220,7 +237,8 @@ def plan_v1(tier, seed, props):
     items += [item("scalarr_4_3", NONE, 0.12 if q else 0.6), item("nestarr_2", NONE, 0.12 if q else 0.6), item("obj_2", NONE, 0.15 if q else 1.0),
               item("deep", NONE, 0.06 if q else 0.6), item("deepobj", NONE, 0.4 if q else 1.0), item("deeparr", NONE, 0.15 if q else 1.0),
               item("keyed_2", NONE, 0.3 if q else 1.0), item("objptr", NONE, 0.01 if q else 0.1), item("ptrdeep", NONE, 0.06 if q else 0.6),
-              item("kinds", NONE, 0.05 if q else 0.5), item("siblings", NONE, 0.3 if q else 1.0)]
+              item("kinds", NONE, 0.05 if q else 0.5), item("siblings", NONE, 0.3 if q else 1.0),
+              item("long_key", NONE, 0.1 if q else 1.0, False), item("long_root", NONE, 0.1 if q else 1.0, False), item("wide", NONE, 0.5 if q else 1.0, False)]
     for o in ((MERGE,) if c18 else (SET, MSET, MERGE, KEYS, O(eps=8))):
         f = 0.05 if q else 0.3
         vd = not (c18 and o.get("merge"))      # RFC 7386 has no notion of the empty (void) document
@@ -229,6 +247,7 @@ def plan_v1(tier, seed, props):
         if not c18:
             items += [item("scalarr_4_3", o, f), item("keyed_2", o, f * 4)]
     if not c18:
+        items += [item("kinds", o, 0.03 if q else 0.3, mode="negzero") for o in (NONE, SET, MSET)]
         # the keyed reading of v1 (SET + Setkeys), on the families whose array members all carry the keys
         items += [item("keyed_2", SETKEYS, 0.6 if q else 1.0), item("keyeddeep", SETKEYS, 1.0),
                   item("keyed2k", O(set=True, keys=["from", "to"]), 0.3 if q else 1.0)]
